@@ -796,9 +796,14 @@ class SFTPClient(BaseSFTP, ClosingContextManager):
         with self.open(remotepath, "rb") as fr:
             if prefetch:
                 fr.prefetch(file_size, max_concurrent_prefetch_requests)
-            return self._transfer_with_callback(
+            size = self._transfer_with_callback(
                 reader=fr, writer=fl, file_size=file_size, callback=callback
             )
+        if size != file_size:
+            raise IOError(
+                "size mismatch in get!  {} != {}".format(size, file_size)
+            )
+        return size
 
     def get(
         self,
